@@ -421,8 +421,9 @@ def run_c07(ctx):
         k = (v["endsIn"], v["inBlock"], v["lastItem"])
         kinds[k] = kinds.get(k, 0) + 1
     cov = dict(evaluations=len(vecs), distinct_nontrivial=len(kinds),
-               rule="vectors = every text over 15 character classes up to the length bound in several spellings + TLC-sampled longer texts "
-                    "+ repository YANG cut at random points; distinct = (state function in which the text ends, inside a block, last item)",
+               rule="vectors = every text over 15 character classes up to the length bound in several spellings + characters that alias structural ASCII "
+                    "characters or are blanks to Unicode only, in every lexer state + TLC-sampled longer texts + repository YANG cut at random points "
+                    "(+ untraced: concatenations, absurd arguments, rules between statements, byte order mark); distinct = (state function in which the text ends, inside a block, last item)",
                samples=[dict(text=show(v["text"], 120), endsIn=v["endsIn"], result=r["ret"]) for v, r in list(zip(vecs, results))[7::max(1, len(vecs) // 3)]][:3],
                mc_maxlen=6 if q else 12, trace_events=events, concatenation_texts=len(cvecs), race_detector_calls=len(rvecs),
                race_detector_skipped=sum(1 for r in rres if r["verdict"] == "skipped"), repo_texts=len(rts), truncated_texts=len(given),
@@ -568,7 +569,8 @@ def run_c08(ctx):
                            "Argument().String() compared code point by code point; long random strings were decoded by the spec from the same text")
     return ctx.finish(cov, [
         "RFC 6020 does not fix the order of escape substitution and white-space stripping: a string is judged only if both orders give the same value",
-        "a backslash before a character other than n t \" \\ and a CR that is not part of CR LF are not generated",
+        "a backslash before a character other than n t \" \\ is not generated; a CR that is not part of CR LF is judged unless a blank stands next to it (RFC 6020 does not say whether it is a line break)",
+        "only space and tab are blanks: every other character that Unicode classes as white space is an ordinary character of the string",
         "the column of the opening quote is counted in characters: a tab takes 8 columns, any other character (1 to 4 bytes) takes 1",
         "a tab counts as 8 columns (property statement), not as a tab stop",
     ])
@@ -684,6 +686,7 @@ def run_c10(ctx):
         "keywords: prefixed extension statements (free shape) plus container/leaf/description/type in valid positions, inside a minimal module",
         "byte columns of keywords are judged only where the line prefix is ASCII; the implicit case the parser wraps around a shorthand member of a choice counts as the member (same position, same argument), order and identity of the children are judged",
         "a text the spec cannot read as one statement, and a text the code rejects on its own, are not judged here (C09)",
+        "a byte order mark at the start of the text: whether it belongs to the first keyword is not judged (both readings accepted), positions refer to the text as handed to Parse",
     ])
 
 
@@ -696,17 +699,17 @@ MANIFEST = {
              "item, finish after EOF) over an unbuffered channel; TLC checks under fairness that both end on every text over 15 character classes to "
              "length 6/12 and every abort point, that nothing is left when Parse returns, and that the constants describing the pinned code produce the "
              "hang and the leak. Every class string to length 3/4 in several spellings, sampled longer texts and repository YANG cut at random points "
-             "are parsed by the real code under a watchdog with a goroutine dump (error names the input and a position inside it, or root set), and "
+             "are parsed by the real code under a watchdog with a goroutine dump (error names the input and a position inside it, or root set), as are characters whose low 7/8/16 bits alias structural ASCII characters in every lexer state and complete modules that fail only after the last token (scoping rules between statements); "
              "the hook events of every call are validated against the mechanism by YangLexerTrace.",
              note="needs the lexer hooks; token boundaries irrelevant to C07 are accepted either way in the trace; a slice of the calls runs under the Go race detector (ypt built with -race)", design="4 C07", technique=YP),
  "C08": dict(text="YangString.tla defines the RFC 6020 6.1.3 value of a string argument (quote column with tab = 8, indentation and trailing-blank "
              "stripping, the four escapes, concatenation); TLC enumerates layouts (quote column, indents of spaces and tabs around it, trailing blanks, "
-             "LF/CRLF, empty and blank lines, escapes, comments inside quotes, trivia around +) with their values; the real parser's "
+             "LF/CRLF, empty and blank lines, escapes, comments inside quotes, trivia around +, Unicode-only blanks and stray CRs at line edges) with their values; the real parser's "
              "Argument().String() is compared code point by code point; long random strings are decoded by the spec from the same text.",
              note="judged only where substituting escapes before or after stripping gives the same value (RFC 6020 is silent); quote column in characters (tab 8, else 1)", design="4 C08", technique=YP),
  "C10": dict(text="YangTree.tla renders statement trees with any trivia at every token boundary and any quoting form of every argument, and reads texts "
              "back (intended lexer + RFC 6020 statement grammar); TLC checks the reader inverts the rendering on every generated layout; the real "
              "parser's tree, walked through the public API, must equal the source tree (keywords, decoded arguments, order, nesting, line:column) and "
-             "all layouts of one tree must agree up to positions; the same raw multi-line string at several quote columns must decode per occurrence; repository YANG and TLC's re-laid-out forms are judged by the spec reading the same text.",
+             "all layouts of one tree must agree up to positions; blocks of 1..80 (thorough ..300) statements followed by further blocks and texts starting with a byte order mark keep every statement at its place in the text handed to Parse; the same raw multi-line string at several quote columns must decode per occurrence; repository YANG and TLC's re-laid-out forms are judged by the spec reading the same text.",
              note="open finding: a comment directly after an unquoted word is swallowed into the word; implicit case wrappers count as their member", design="4 C10", technique=YP),
 }
